@@ -1369,10 +1369,15 @@ def gen_C11(r, n):
         if q != 0 and r.below(2):
             q += abs(q) * Fr(r.choice([1, -1]), 2 ** r.rng(60, 110))
         return tf_of_fr(q)
+    FIXED_GRID = [Fr(k, 2) for k in range(-17, 18)] + [Fr(k, 4) for k in (-7, -5, -3, -1, 1, 3, 5, 7)] + \
+                 [Fr(s_ * (2 ** j * 2 + 1), 2) for j in (3, 5, 8, 9) for s_ in (1, -1)] + [Fr(s_ * 2001, 2) for s_ in (1, -1)]
     for e in ents:
         a = e.get('args') or []
         if e.get('const') or not a or any(k not in ('tf', 'f64') for k in a):
             continue
+        if a == ['tf']:
+            for q in FIXED_GRID:          # every unary function at every small half- and quarter-integer (deterministic)
+                c.add('%s %s' % (e['name'], w2(tf_of_fr(q))), kind='grid')
         for _ in range(max(4, per)):
             ws = [e['name']]
             for k in a:
@@ -1868,6 +1873,9 @@ def gen_C15(r, n, thorough=False):
         elif kk == 6:
             # just above -1: 1 + x = m * 2^-k down to the last bit of the low word (the f64 seed log1p(hi) cannot see lo)
             y = tf_of_fr(-1 + Fr(r.rng(1, 2**r.rng(1, 24)), 2**r.rng(24, 128)))
+            if r.below(3) == 0:
+                # hi = -1 exactly with a tiny positive low word, down to the least subnormal: 1 + x = lo (ln of the subnormal range)
+                y = (-1.0, math.ldexp(float(r.rng(1, 2**20)), -r.rng(128, 1074) - 20) or 5e-324)
         elif kk == 1:
             y = tf_of_fr(Fr(r.rng(-2**30 + 1, 3 * 2**28), 2**30))      # (-1, 0.75)
         elif kk == 2:
